@@ -8,7 +8,7 @@ fallback and not to node.print.  The round trip itself over Unicode, numbers and
 """
 import ast
 
-from ..astx import walk_no_nested, dotted, call_name, self_attr, func_params
+from ..astx import walk_no_nested, dotted, call_name, self_attr, func_params, ancestors
 from ..core import norm, Inconclusive
 from .c06 import e9_json, encoder_on_all_paths
 from .c09 import loader_chain, json_return_classes
@@ -307,7 +307,125 @@ def r12f(ctx):
                           "ScannerError: mapping values are not allowed in this context")
 
 
+def r12g(ctx):
+    m = ctx.model
+    ctx.rule("R12g", "the YAML scalar writer writes something for every value: `write_obj` (what every leaf handler of the YAML formatter "
+                     "ends in) reaches a `printer.write(...)` on every path - a path that returns with nothing written prints a value as "
+                     "the empty text, which the loader reads as null (`a: ''` came back as `a: null`)")
+    q = m.need_class("YAMLFormatter")
+    f = m.method(q, "write_obj")
+    if f is None:
+        ctx.inconclusive("R12g", "graphtage/yaml.py", "YAMLFormatter.write_obj", None, "scalar writer", "YAMLFormatter.write_obj not found")
+        return
+    ps = func_params(f.node)
+    pr = next((p_ for p_ in ps if p_ not in ("self", "cls")), None)
+
+    def writes(s_):
+        return sum(1 for c in ast.walk(s_) if isinstance(c, ast.Call) and isinstance(c.func, ast.Attribute) and c.func.attr == "write"
+                   and isinstance(c.func.value, ast.Name) and c.func.value.id == pr)
+
+    def paths(stmts, facts, w):
+        # [(facts, writes, terminating statement or None)] - if/else and early returns only; other statements are straight-line
+        if not stmts:
+            return [(facts, w, None)]
+        s_, rest = stmts[0], stmts[1:]
+        if isinstance(s_, ast.If):
+            out = []
+            for pol, branch in ((True, s_.body), (False, s_.orelse)):
+                for fc, ww, end in paths(branch, facts + [(s_.test, pol)], w):
+                    out += [(fc, ww, end)] if end is not None else paths(rest, fc, ww)
+            return out
+        if isinstance(s_, (ast.Return, ast.Raise)):
+            return [(facts, w + writes(s_), s_)]
+        return paths(rest, facts, w + writes(s_))
+    silent = [(fc, end) for fc, w, end in paths(f.node.body, [], 0) if w == 0 and not isinstance(end, ast.Raise)]
+    n = len(paths(f.node.body, [], 0))
+    if silent:
+        fc, end = silent[0]
+        cond = " and ".join(("" if pol else "not ") + norm(t, 40) for t, pol in fc) or "always"
+        ctx.violation("R12g", f.file, "YAMLFormatter.write_obj", end or f.node, "scalar writer",
+                      f"under `{cond}` write_obj returns without writing anything: the value is printed as the empty text, which loads "
+                      f"back as null (or, for a key, does not load at all)")
+    else:
+        ctx.proved("R12g", f.file, "YAMLFormatter.write_obj", f.node, "scalar writer", f"{n} path(s), each writes to the printer")
+    ctx.floor("R12g", n, 1, "paths through YAMLFormatter.write_obj")
+
+
+def r12h(ctx):
+    m = ctx.model
+    ctx.rule("R12h", "in a format where an empty line is data (CSV: a blank line loads as an empty row) the text ends once: the row "
+                     "formatter terminates every row including the last (which is what lets trailing empty rows load back), so the "
+                     "newline that main() appends to every output must not be appended to this one - two line breaks at the end are one "
+                     "row more than the document had")
+    q = m.find_class("CSVRows")
+    f = m.method(q, "item_newline") if q else None
+    mainf = m.functions.get("graphtage.__main__.main")
+    if f is None or mainf is None:
+        ctx.inconclusive("R12h", "graphtage/csv.py", "CSVRows.item_newline", None, "closing newline", "CSVRows.item_newline or main() not found")
+        return
+    from ..astx import dominating_conditions, flatten_conditions, facts_refute
+    ps = func_params(f.node)
+    last = ps[3] if len(ps) > 3 else "is_last"
+    nls = [c for c in walk_no_nested(f.node) if isinstance(c, ast.Call) and isinstance(c.func, ast.Attribute) and c.func.attr in ("newline", "write")]
+    terminates_last = [c for c in nls if not facts_refute(flatten_conditions(dominating_conditions(c)), {last: True})]
+    closing = [c for c in walk_no_nested(mainf.node) if isinstance(c, ast.Call) and isinstance(c.func, ast.Attribute) and c.func.attr in ("write", "newline")
+               and ((c.args and isinstance(c.args[0], ast.Constant) and c.args[0].value == "\n") or (c.func.attr == "newline" and not c.args))
+               and not any(isinstance(a_, (ast.For, ast.While)) for a_ in ancestors(c))]
+    ctx.floor("R12h", len(nls), 1, "line breaks written by CSVRows.item_newline")
+    if not terminates_last or not closing:
+        ctx.proved("R12h", f.file, "CSVRows.item_newline", f.node, "closing newline",
+                   "rows are separated, not terminated" if not terminates_last else "main() appends no newline of its own", nontrivial=False)
+        return
+    for c in closing:
+        conds = [ast.unparse(t) for t, pol in flatten_conditions(dominating_conditions(c))]
+        aware = [x for x in conds if any(w in x.lower() for w in ("csv", "format", "endswith", "newline", "last_char", "ends_with"))]
+        if aware:
+            ctx.proved("R12h", mainf.file, "main", c, "closing newline", f"the closing newline is conditional on `{aware[0][:60]}`")
+        else:
+            ctx.violation("R12h", mainf.file, "main", c, "closing newline",
+                          f"`{norm(c, 30)}` is appended to every output, and CSVRows.item_newline has already terminated the last row "
+                          f"(`{norm(terminates_last[0], 30)}` also runs under {last}=True): `graphtage x.csv x.csv` prints one empty row "
+                          f"more than x.csv has, and the printed text does not load back equal")
+
+
+def r12i(ctx):
+    m = ctx.model
+    ctx.rule("R12i", "a node class with a handler of its own in a formatter (print_<Class>) prints itself through that formatter: its "
+                     "print() delegates to <Formatter>.DEFAULT_INSTANCE.print(printer, self) - printing its parts with their generic "
+                     "print() instead yields another format's text between this format's delimiters (plist header around JSON-like text)")
+    n = 0
+    tn = m.need_class("TreeNode")
+    for q in sorted(m.classes):
+        short = q.rsplit(".", 1)[-1]
+        own = m.attrs[q].get("print")
+        if not own or own[0] != "def" or not m.is_subclass(q, tn):
+            continue
+        if m.classes[q][0] not in ("graphtage.xml", "graphtage.plist", "graphtage.csv", "graphtage.yaml", "graphtage.json"):
+            continue        # the formats C12 speaks about; generic containers and the Python-object differ have no text format of their own
+        fmts = [fq for fq in m.classes if f"print_{short}" in m.attrs[fq] and m.classes[fq][0] == m.classes[q][0]]
+        if not fmts:
+            continue
+        n += 1
+        f = own[1]
+        names = {fq.rsplit(".", 1)[-1] for fq in fmts}
+        ok = any(isinstance(c, ast.Call) and isinstance(c.func, ast.Attribute) and c.func.attr == "print"
+                 and isinstance(c.func.value, ast.Attribute) and c.func.value.attr == "DEFAULT_INSTANCE"
+                 and (dotted(c.func.value.value) or "").rsplit(".", 1)[-1] in
+                 {x.rsplit(".", 1)[-1] for fq in fmts for x in [fq] + [s_ for s_ in m.classes if m.is_subclass(s_, fq)]}
+                 for c in walk_no_nested(f.node))
+        if ok:
+            ctx.proved("R12i", f.file, f"{short}.print", f.node, f"{short}.print", f"delegates to {sorted(names)[0]}.DEFAULT_INSTANCE")
+        else:
+            ctx.violation("R12i", f.file, f"{short}.print", f.node, f"{short}.print",
+                          f"{short}.print() does not go through {sorted(names)[0]} (which has print_{short}): its parts are printed by their generic "
+                          f"print(), so `tree.print(printer)` of a loaded document is not text of the document's own format")
+    ctx.floor("R12i", n, 2, "node classes with a formatter handler of their own and a print() override")
+
+
 def run(ctx):
+    r12h(ctx)
+    r12i(ctx)
+    r12g(ctx)
     r12f(ctx)
     r12e(ctx)
     from ..memo import e13
